@@ -73,4 +73,43 @@ def authorize (gen : Nat → Bytes) (n : Nat) (c : Cfg) : Parts × Bytes × Nat 
   let st := gen n
   (build c st, st, n + 1)
 
+/-! ## The builder (`AuthorizationRequest`'s consuming setters, src/code.rs)
+
+`authorize_url_impl` creates the request from the client (endpoint, client id, the client's default redirect URL,
+response type "code", nothing else) and every builder method returns the request with ONE field changed.
+`set_redirect_uri` overwrites the request's own `redirect_url` field, which starts as the client default: in the
+model the default stays in `clientRedirect` and the override goes to `overrideRedirect` (`redirect` picks the override),
+which is the same value for every sequence of calls (`C03B.redirect_field`). -/
+
+inductive Op
+  | useImplicit
+  | setResponseType (v : Bytes)
+  | setPkce (challenge method : Bytes)
+  | setRedirect (r : Bytes)
+  | addScope (x : Bytes)
+  | addScopes (xs : List Bytes)
+  | addExtra (k v : Bytes)
+deriving DecidableEq, Repr
+
+/-- `authorize_url_impl` -/
+def initial (endpoint clientId : Bytes) (clientRedirect : Option Bytes) : Cfg :=
+  { endpoint := endpoint, clientId := clientId, respType := .code, pkce := none, clientRedirect := clientRedirect,
+    overrideRedirect := none, scopes := [], extras := [] }
+
+def applyOp (c : Cfg) : Op → Cfg
+  | .useImplicit => { c with respType := .implicit }
+  | .setResponseType v => { c with respType := .custom v }
+  | .setPkce ch m => { c with pkce := some (ch, m) }
+  | .setRedirect r => { c with overrideRedirect := some r }
+  | .addScope x => { c with scopes := c.scopes ++ [x] }
+  | .addScopes xs => { c with scopes := c.scopes ++ xs }
+  | .addExtra k v => { c with extras := c.extras ++ [(k, v)] }
+
+def applyOps (c : Cfg) (ops : List Op) : Cfg := ops.foldl applyOp c
+
+/-- client → `authorize_url(state_fn)` → builder calls → `.url()` -/
+def authorizeOps (gen : Nat → Bytes) (n : Nat) (endpoint clientId : Bytes) (clientRedirect : Option Bytes) (ops : List Op) :
+    Parts × Bytes × Nat :=
+  authorize gen n (applyOps (initial endpoint clientId clientRedirect) ops)
+
 end AuthUrl
